@@ -204,8 +204,9 @@ def gate():
     return bad
 
 
-def check_proofs(pid):
-    """full build + re-check of Properties/<pid>.v with its Print Assumptions output parsed"""
+def check_proofs(pid, tier="quick"):
+    """full build + re-check of Properties/<pid>.v with its Print Assumptions output parsed;
+    thorough tier: the compiled property file and everything it depends on re-checked by coqchk"""
     res = {"ok": False, "obligations": 0, "discharged": 0, "theorems": [], "log": ""}
     pf = os.path.join(COQ, "Properties", pid + ".v")
     src = open(pf).read() if os.path.exists(pf) else ""
@@ -244,6 +245,16 @@ def check_proofs(pid):
     res["ok"] = (not missing) and len(assum) >= len(printed) and not res["axioms_used"]
     if missing:
         res["log"] = "theorems without Print Assumptions: " + ", ".join(missing)
+    if res["ok"] and tier == "thorough":
+        # independent checker over the compiled files; -o prints the axioms of everything loaded
+        rc, o = sh(["coqchk", "-silent", "-o", "-Q", ".", "Verif", "Verif.Properties.%s" % pid], cwd=COQ, timeout=3600)
+        m = re.search(r"\* Axioms:\s*(.*?)\n\s*\n", o, flags=re.S)
+        axioms = (m.group(1).strip() if m else "?")
+        res["coqchk"] = {"rc": rc, "axioms": axioms}
+        if rc != 0 or axioms != "<none>":
+            res["ok"] = False
+            res["broken_at"] = "coqchk Properties/%s" % pid
+            res["log"] = "coqchk: rc=%d axioms=%s\n%s" % (rc, axioms, o[-1500:])
     return res
 
 
@@ -363,7 +374,7 @@ def run_property(pid, spec, tier, seed, replay=None):
     t0 = time.time()
     violations = []      # (replay_obj, has_input)
     known_hits = {}
-    proof = check_proofs(pid)
+    proof = check_proofs(pid, tier)
     okr, orunner, runner_exe = build_runner()
     okh, oh, hb = build_harness()
     jobs = []
@@ -483,6 +494,7 @@ def run_property(pid, spec, tier, seed, replay=None):
             "obligations": max(proof["obligations"], 1), "discharged": proof["discharged"],
             "checker_cmd": "make -f Makefile.coq -j16 (coqc 8.16.1, full .vo build) && coqc Properties/%s.v ; Print Assumptions parsed" % pid,
             "theorems": proof["theorems"],
+            "coqchk": proof.get("coqchk", "not run in the quick tier (thorough: coqchk -silent -o over Properties/%s and all it depends on)" % pid),
             "trusted_base": TRUSTED_BASE + spec.get("trusted_extra", []),
             "repo_tree_sha256": repo_tree_hash(),
             "gen_consts_sha256": file_hash([os.path.join(COQ, "Gen", "Consts.v")]),
